@@ -139,10 +139,14 @@ func (mo *monitor) options(clientIP string) rc.Options {
 }
 
 func hostOf(addr string) string {
-	if h, _, err := net.SplitHostPort(addr); err == nil {
-		return h
+	h := addr
+	if hh, _, err := net.SplitHostPort(addr); err == nil {
+		h = hh
 	}
-	return addr
+	if ip := net.ParseIP(h); ip != nil {
+		return ip.String() // canonical text form: what the server hashes into the cookie
+	}
+	return h
 }
 
 // judge runs the contract on one observed exchange.
@@ -338,6 +342,13 @@ func (mo *monitor) runCase(c *Case, cl *stack.Client) {
 		}
 		tr := p.Transport
 		mo.r.Count("probes/"+p.Entry, 1)
+		if strings.HasPrefix(c.Kind, "hdr/") {
+			cls := "none"
+			if reply != nil {
+				cls = rc.Class(reply)
+			}
+			mo.r.Count(fmt.Sprintf("%s/%s=%s", c.Kind, rc.Transport(tr), cls), 1)
+		}
 		mo.judge(c, i, tr, clientIP, query, reply)
 		if ck := serverCookieFrom(reply); ck != "" {
 			lastCookie = ck
@@ -348,6 +359,13 @@ func (mo *monitor) runCase(c *Case, cl *stack.Client) {
 // ---------------------------------------------------------------------
 // Case generation
 // ---------------------------------------------------------------------
+
+// ipFor derives a per-case non-loopback client address a.x.y.z from the case
+// index (unique within one configuration's stack: < 2^24 cases).
+func ipFor(a byte, idx int) string {
+	li := idx % 10_000_000
+	return fmt.Sprintf("%d.%d.%d.%d", a, li>>16&0xff, li>>8&0xff, li&0xff)
+}
 
 var sockTransports = []string{"udp", "tcp", "dot", "doh-get", "doh-post", "doq"}
 var qtypes = []uint16{dns.TypeA, dns.TypeA, dns.TypeA, dns.TypeAAAA, dns.TypeTXT, dns.TypeMX, dns.TypeRRSIG, dns.TypeDNSKEY, dns.TypeNSEC, dns.TypeDS}
@@ -376,9 +394,10 @@ func genPairCase(rng *rand.Rand, idx, ci int, worker int) *Case {
 	c.UpstreamHex, c.UpstreamReqOPT, c.UpstreamDesc = hex.EncodeToString(b), reqOPT, desc
 
 	n := 2 + rng.IntN(3)
-	inprocIP := fmt.Sprintf("203.%d.%d.%d", 1+idx>>16&0xff, idx>>8&0xff, idx&0xff)
+	inprocIP := ipFor(11, idx)
 	if ci%2 == 1 {
-		inprocIP = fmt.Sprintf("2001:db8:c06::%x:%x", idx>>16, idx&0xffff)
+		li := idx % 10_000_000
+		inprocIP = fmt.Sprintf("2001:db8:c06::%x:%x", li>>16, li&0xffff)
 	}
 	for i := 0; i < n; i++ {
 		var p Probe
@@ -449,7 +468,7 @@ func genSpecialCase(rng *rand.Rand, idx, ci, worker int) *Case {
 			if p.Entry == "msg" {
 				p.Transport = []string{"udp", "tcp", "doh", "doq"}[rng.IntN(4)]
 			}
-			ip := fmt.Sprintf("203.0.%d.%d", idx>>8&0xff, idx&0xff)
+			ip := ipFor(15, idx)
 			if s.view {
 				ip = fmt.Sprintf("198.51.100.%d", 1+idx%250)
 			}
@@ -520,7 +539,7 @@ func genSizeCase(rng *rand.Rand, idx, ci, worker int) *Case {
 		if p.Entry == "sock" {
 			p.Client = fmt.Sprintf("127.66.%d.1", worker)
 		} else {
-			p.Client = fmt.Sprintf("203.200.%d.%d:%d", idx>>8&0xff, idx&0xff, 3000+rng.IntN(5000))
+			p.Client = fmt.Sprintf("%s:%d", ipFor(12, idx), 3000+rng.IntN(5000))
 		}
 		p.Q = genQuery(rng, name, qtype, dns.ClassINET, isStream(p.Transport))
 		p.Q.CD = false // stay on one cache key so hits are exercised at every size
@@ -539,7 +558,7 @@ func genSizeCase(rng *rand.Rand, idx, ci, worker int) *Case {
 func genCookieCase(rng *rand.Rand, idx, ci int) *Case {
 	name := fmt.Sprintf("c%d-%d.cookie.test.", idx, ci)
 	c := &Case{Index: idx, Kind: "badcookie", Config: ci, QName: name, QType: dns.TypeA}
-	ip := fmt.Sprintf("203.100.%d.%d", idx>>8&0xff, idx&0xff)
+	ip := ipFor(13, idx)
 	entry := []string{"raw", "engine", "msg"}[rng.IntN(3)]
 	for i := 0; i < 3; i++ {
 		p := Probe{Entry: entry, Transport: "udp", Client: fmt.Sprintf("%s:%d", ip, 4000+i)}
@@ -583,7 +602,7 @@ func genDeniedCase(rng *rand.Rand, idx, ci int) *Case {
 func genFloodCase(rng *rand.Rand, idx, ci int) *Case {
 	name := fmt.Sprintf("c%d-%d.flood.test.", idx, ci)
 	c := &Case{Index: idx, Kind: "rate-limited", Config: ci, QName: name, QType: dns.TypeA}
-	ip := fmt.Sprintf("203.150.%d.%d", idx>>8&0xff, idx&0xff)
+	ip := ipFor(14, idx)
 	for i := 0; i < clientRate+25; i++ {
 		p := Probe{Entry: []string{"raw", "msg"}[i%2], Transport: []string{"udp", "tcp"}[rng.IntN(2)],
 			Client: fmt.Sprintf("%s:%d", ip, 6000+i)}
@@ -623,7 +642,7 @@ func genHeaderCases2(rng *rand.Rand, idx *int, ci int, ecs bool) []*Case {
 		*idx++
 		c := &Case{Index: *idx, Kind: "hdr/" + rcase.Kind, Config: ci, UpstreamDesc: rcase.Kind}
 		c.Probes = []Probe{{Entry: []string{"raw", "msg"}[i%2], Transport: "udp",
-			Client: fmt.Sprintf("203.250.%d.%d:5353", ci, i), QueryHex: hex.EncodeToString(rcase.Pkt)}}
+			Client: ipFor(16, *idx) + ":5353", QueryHex: hex.EncodeToString(rcase.Pkt)}}
 		out = append(out, c)
 	}
 	return out
@@ -698,45 +717,45 @@ func main() {
 		if err != nil {
 			r.Fatalf("stack: %v", err)
 		}
-		rng := r.RandN("cases", ci)
-		idx := ci * 1_000_000
-		var cases []*Case
-		nPair := r.N(230, 3500)
-		nSize := r.N(45, 700)
-		nSpecial := r.N(30, 300)
-		nCookie := r.N(14, 150)
-		for i := 0; i < nPair; i++ {
-			idx++
-			cases = append(cases, genPairCase(rng, idx, ci, i%workers))
-		}
-		for i := 0; i < nSize; i++ {
-			idx++
-			cases = append(cases, genSizeCase(rng, idx, ci, i%workers))
-		}
-		for i := 0; i < nSpecial; i++ {
-			idx++
-			cases = append(cases, genSpecialCase(rng, idx, ci, i%workers))
-		}
-		for i := 0; i < nCookie; i++ {
-			idx++
-			cases = append(cases, genCookieCase(rng, idx, ci))
-		}
-		for i := 0; i < 3; i++ {
-			idx++
-			cases = append(cases, genDeniedCase(rng, idx, ci))
-		}
-		idx++
-		cases = append(cases, genFloodCase(rng, idx, ci))
-		cases = append(cases, genHeaderCases2(rng, &idx, ci, mo.cs.ECS)...)
-		rng.Shuffle(len(cases), func(i, j int) { cases[i], cases[j] = cases[j], cases[i] })
-		if ci == 0 && len(cases) > 3 {
-			for _, c := range cases[:3] {
-				r.Sample(map[string]any{"kind": c.Kind, "upstream": c.UpstreamDesc, "probes": len(c.Probes), "first": c.Probes[0]})
-			}
-		}
 		before := mo.st.Counters()
-		mo.runAll(cases)
-		total += len(cases)
+		batches := r.N(1, 100)
+		for batch := 0; batch < batches; batch++ {
+			rng := r.RandN("cases", ci*1000+batch)
+			idx := ci*10_000_000 + batch*50_000
+			var cases []*Case
+			nPair, nSize, nSpecial, nCookie := 900, 180, 100, 40
+			for i := 0; i < nPair; i++ {
+				idx++
+				cases = append(cases, genPairCase(rng, idx, ci, i%workers))
+			}
+			for i := 0; i < nSize; i++ {
+				idx++
+				cases = append(cases, genSizeCase(rng, idx, ci, i%workers))
+			}
+			for i := 0; i < nSpecial; i++ {
+				idx++
+				cases = append(cases, genSpecialCase(rng, idx, ci, i%workers))
+			}
+			for i := 0; i < nCookie; i++ {
+				idx++
+				cases = append(cases, genCookieCase(rng, idx, ci))
+			}
+			for i := 0; i < 3; i++ {
+				idx++
+				cases = append(cases, genDeniedCase(rng, idx, ci))
+			}
+			idx++
+			cases = append(cases, genFloodCase(rng, idx, ci))
+			cases = append(cases, genHeaderCases2(rng, &idx, ci, mo.cs.ECS)...)
+			rng.Shuffle(len(cases), func(i, j int) { cases[i], cases[j] = cases[j], cases[i] })
+			if ci == 0 && batch == 0 && len(cases) > 3 {
+				for _, c := range cases[:3] {
+					r.Sample(map[string]any{"kind": c.Kind, "upstream": c.UpstreamDesc, "probes": len(c.Probes), "first": c.Probes[0]})
+				}
+			}
+			mo.runAll(cases)
+			total += len(cases)
+		}
 		if !mo.st.Quiesce(5 * time.Second) {
 			r.Inconclusive("stack did not quiesce")
 		}
@@ -752,21 +771,21 @@ func main() {
 
 	// every transport and every reply class the verdict speaks about
 	for _, tr := range []string{"udp", "tcp", "dot", "doh", "doq"} {
-		r.Require("transport/"+tr, int64(r.N(150, 1500)))
+		r.Require("transport/"+tr, int64(r.N(600, 60000)))
 	}
 	for cls, min := range map[string]int64{
-		"noerror-answer": 300, "noerror-nodata": 30, "nxdomain": 30, "servfail": 10, "truncated": 20,
-		"badvers": 40, "badcookie": 8, "bare-formerr": 60, "bare-notimp": 60,
+		"noerror-answer": 1500, "noerror-nodata": 150, "nxdomain": 150, "servfail": 100, "truncated": 200,
+		"badvers": 60, "badcookie": 30, "bare-formerr": 100, "bare-notimp": 100,
 	} {
 		r.Require("class/"+cls, min)
 	}
-	r.Require("udp_replies_over_512", 10)
+	r.Require("udp_replies_over_512", 100)
 	r.Require("noreply/udp", 10)            // QR=1 / denied / rate-limited packets went unanswered
 	r.Require("server/udp_drop_ignored", 8) // … and the engine counted the QR=1 ones as ignored
 	r.Require("server/tcp_drop_ignored", 8)
 	r.Require("outcome/raw/silent", 10) // access-denied + rate-limited via strict job
-	r.Require("strict_branch", 100)
-	r.Require("inline_served", 5)
+	r.Require("strict_branch", 1000)
+	r.Require("inline_served", 30)
 	r.Finish("every reply observed on every transport/entry is judged by replycontract.Check (the C06 statement) against the exact query bytes that produced it; distinct = (case kind, transport, reply class, client EDNS shape, size bucket, upstream shape)")
 }
 
